@@ -1160,7 +1160,8 @@ impl<T: TraceStorage> ChainProcess<T> {
 
                 let mut msg = stop_marker_rx.try_recv();
                 let mut draw = 0;
-                loop {
+                // A run of zero draws (num_tune + num_draws == 0) must not draw at all.
+                while draw < draws {
                     match msg {
                         // The remote end is dead
                         Err(TryRecvError::Disconnected) => {
